@@ -220,6 +220,7 @@ fn run(cfg: usize, w: &mut Tape, env: &EnvRef) -> RunResult {
         latin1: false,
         utf8: false,
         other_cs: 0,
+        nested_charset: false,
     };
     let mut model = restrict_to(&ds::gen_dataset(w, &gcfg), syn);
     let (strategy, lazy, name) = match cfg {
